@@ -35,8 +35,8 @@ def fixes_table():
 
 
 def seeded_table():
-    rows = ["| seed | file changed | the change (one line) | demo (clean / patched) | stable tests still pass | caught by (quick) | first failed obligations |",
-            "|---|---|---|---|---|---|---|"]
+    rows = ["| seed | round | file changed | the change (one line) | demo (clean / patched) | stable tests still pass | caught by (quick) | first failed obligations |",
+            "|---|---|---|---|---|---|---|---|"]
     for d in sorted(glob.glob(os.path.join(HERE, "seeded", "C*"))):
         name = os.path.basename(d)
         patch = open(os.path.join(d, "patch.diff")).read()
@@ -51,8 +51,9 @@ def seeded_table():
         for p, res in r.get("results", {}).items():
             lines += [l.strip() for l in res["lines"] if l.strip().startswith(("REFUTED", "VIOLATION"))][:2]
         first = "; ".join(l.replace("|", "\\|")[:110] for l in lines[:2])
-        rows.append("| %s | %s | %s | %s / %s | %s | %s | %s |" % (
-            name, ", ".join(os.path.basename(f) for f in files), change.replace("|", "\\|"),
+        meta = json.load(open(os.path.join(d, "meta.json"))) if os.path.exists(os.path.join(d, "meta.json")) else {}
+        rows.append("| %s | %s | %s | %s | %s / %s | %s | %s | %s |" % (
+            name, meta.get("round", "1"), ", ".join(os.path.basename(f) for f in files), change.replace("|", "\\|"),
             v.get("demo_clean_rc"), v.get("demo_patched_rc"), v.get("suite_stable_pass_ok"),
             ", ".join(r.get("caught_by", [])) or "MISSED", first))
     return "\n".join(rows)
